@@ -37,30 +37,40 @@ LEVEL = "proof"
 ENGINES = ["lean-model", "pyextract", "purediff", "kopfsim"]
 LEVEL_TEXT = (
     "Lean theorems for ALL fault scripts / backoff streams / delay configurations / label lists of any number of "
-    "requesters. Request loop: attempts_bound, gap_ge_backoff (hypothesis: enforce_retry_after off, the documented "
-    "override), gap_ge_retry_after (HTTP 429, header or details.retryAfterSeconds, any enforce flag), "
-    "fatal_4xx_immediate, transient_retried_then_escalates, success_stops, transient_http_iff; "
-    "retry_after_http_date (F1 repaired, rounded up in 19d7f3b: retried, gap >= max(0, when - now)), "
-    "http_date_delay_exact, http_date_rounds_up, retry_after_garbage_falls_back; "
-    "retry_after_overflow_falls_back (F2 repaired). Throttler: delays_follow_config (k-th consecutive error -> delays[min(k,last)]), "
-    "empty_config_never_throttles, success_resets, swallowed, other_objects_unaffected, recovers_after_errors_stop. "
-    "Vault LTS invariants over every label list: single_reauth, stale_invalidation_is_noop, all_proceed_fresh, "
-    "invalid_not_reused (within the 3-per-key history, bound explicit) with invalid_reused_beyond_history_witness "
-    "(the 4th-oldest credential IS re-served), no_impossible_state. Tie: status->class chain, >=400 guard and retry "
-    "tuple extracted from the AST and proved equal to the model's tables; the real api.request / throttled / "
+    "requesters. Request loop: attempts_bound (one pass of the function under @authenticated; a 401 re-enters with a "
+    "new budget), gap_ge_backoff (every position; guard = exactly the documented override: enforce_retry_after AND a 429 "
+    "with a usable Retry-After), gap_ge_retry_after (the parsed value), gap_ge_requested_partial (against what the server "
+    "SENT; guard: status 429, header spelled 'Retry-After', whole seconds) with three negation witnesses "
+    "(fractional_delay_truncated_witness = F5, other_case_header_ignored_witness = F4, retry_after_on_5xx_ignored_witness "
+    "= by design/documented), fatal_4xx_immediate, transient_retried_then_escalates, success_stops, transient_http_iff, "
+    "retry_after_http_date + http_date_delay_exact (F1 repaired), unparsable_retry_after_uses_backoff (F1/F2 repaired, any "
+    "position). Throttler: delays_follow_config (k-th consecutive error -> delays[min(k,last)] and the pause is served: "
+    "sleep2 = that delay), empty_config_never_throttles, success_resets, swallowed, scalar_delays_escape_witness, "
+    "recovers_after_errors_stop, paused_while_active, interrupted_pause_is_kept, product_projection (N objects, any "
+    "interleaving on one clock: each object's throttler and outputs = its solo run; structural - that a sleeping object "
+    "does not hold up another one's start is the D tie of concurrently running real throttlers, worker_limit=None). "
+    "Vault LTS invariants over every label list: single_reauth, reauth_possible, all_proceed_fresh, no_impossible_state, "
+    "invalid_not_reused_partial (guard: last 3 invalidations of the SAME key, SAME priority) with three negation "
+    "witnesses of the unbounded clause (finding F3: beyond history / other key / other priority). Tie: status->class "
+    "chain, >=400 guard and retry tuple extracted from the AST and proved equal; the real api.request / throttled / "
     "Vault+authenticated+authenticator run against the models on generated scripts (differential with exact ticks; "
-    "trace acceptance with vault-state snapshots after every label). The structure of the retry loop, of throttled() "
-    "and of the Vault methods is tied by those runs (sampled), not by translation.")
+    "product run of concurrent objects; trace acceptance with vault-state snapshots after every label). The structure "
+    "of the retry loop, of throttled() and of the Vault methods is tied by those runs (sampled), not by translation. "
+    "Oracle-only clauses: 'does not stop the operator' above throttled(), 'does not delay other objects' in time.")
 TIE = ("T (check_response chain + retry tuple: AST → Lean, proved equal) + D (real api.request and real throttled "
-       "under virtual time, exact tick comparison) + A (real Vault/authenticated/authenticator: labelled segments "
-       "accepted by the Lean LTS with equal vault state after every label)")
+       "under virtual time, exact tick comparison, incl. the N-object product run) + A (real Vault/authenticated/"
+       "authenticator: labelled segments accepted by the Lean LTS with equal vault state after every label)")
 THEOREMS = [("Kopf.Props.C12", "Kopf.C12." + n) for n in [
-    "attempts_bound", "gap_ge_backoff", "gap_ge_retry_after", "fatal_4xx_immediate",
-    "transient_retried_then_escalates", "success_stops", "transient_http_iff", "retry_after_http_date", "http_date_delay_exact", "http_date_rounds_up", "retry_after_garbage_falls_back", "retry_after_overflow_falls_back",
+    "attempts_bound", "gap_ge_backoff", "gap_ge_retry_after", "gap_ge_requested_partial",
+    "fractional_delay_truncated_witness", "other_case_header_ignored_witness", "retry_after_on_5xx_ignored_witness",
+    "fatal_4xx_immediate", "transient_retried_then_escalates", "success_stops", "transient_http_iff",
+    "retry_after_http_date", "http_date_delay_exact", "unparsable_retry_after_uses_backoff",
     "delays_follow_config", "empty_config_never_throttles", "success_resets", "swallowed",
-    "other_objects_unaffected", "recovers_after_errors_stop",
-    "single_reauth", "stale_invalidation_is_noop", "all_proceed_fresh", "invalid_not_reused",
-    "invalid_reused_beyond_history_witness", "no_impossible_state",
+    "scalar_delays_escape_witness", "product_projection", "recovers_after_errors_stop", "paused_while_active",
+    "interrupted_pause_is_kept",
+    "single_reauth", "reauth_possible", "all_proceed_fresh", "invalid_not_reused_partial",
+    "invalid_reused_beyond_history_witness", "invalid_reused_under_other_key_witness",
+    "invalid_reused_with_other_priority_witness", "no_impossible_state",
 ]]
 TIE_THEOREMS = [("Kopf.Tie.C12", "Kopf.C12.Tie." + n) for n in [
     "classify_eq", "raises_eq", "retryable_eq"]]
@@ -74,7 +84,9 @@ RULE = (
     "BaseException} with wake-ups into either sleep, gaps placed before/at/after the deadline, 1-3 objects "
     "concurrently; distinct = (config kind, outcome/should_run sequence). vault: 0-2 login keys with priorities, "
     "1-6 concurrent requesters x 1-3 calls, server-side revocation times, login scripts returning fresh / "
-    "repeated-invalid / no credentials after a delay; distinct = the label-kind sequence. A case is non-trivial "
+    "repeated-invalid / the same value with another priority / another key's credential / no credentials after a delay; "
+    "distinct = the label-kind sequence. Retry-After values: integral, fractional, HTTP-date, garbage, overflow, "
+    "negative, under other spellings of the header name, fractional details. A case is non-trivial "
     "when it leaves the straight path (a retry, an escalation, a throttling activation, an invalidation).")
 TRUSTED = [
     "pyextract vocabulary for errors.check_response (response.status comparisons) and the except-tuple of api.request",
@@ -88,14 +100,16 @@ TRUSTED = [
     "(Kopf.Drv.C12.handle) is served by a private main (harness/props/c12.py::ask_lean)",
 ]
 ASSUMPTIONS = [
-    "Retry-After is honoured for HTTP 429 only (as documented in docs/configuration.rst); a Retry-After on 5xx is ignored by the code and not judged",
-    "Retry-After forms: delay-seconds (truncated to whole seconds), HTTP-date (F1, fixed in dee5a41: max(0, ceil(when - now)) since 19d7f3b), garbage and float overflow 'inf'/'1e999' (F2, fixed in ae1ab5d) are ignored like an absent header, except that the body's retryAfterSeconds is then not consulted; both witnesses stay in corpus/C12 as regression cases",
-    "HTTP-date Retry-After is judged strictly: the next attempt must not start before the date (19d7f3b rounds `when - now` up to whole seconds; theorems retry_after_http_date: gap >= max(0, delta), http_date_delay_exact: the delay overshoots the date by less than 1 s)",
-    "settings.queueing.error_delays is an Iterable as annotated; a scalar makes iter() raise TypeError out of throttled (modelled, not judged)",
-    "credentials have no expiration; every populate brings newly constructed info objects (equal values allowed)",
-    "the invalid-credential history is per vault key and holds 3 items (the bound is in the theorem)",
+    "Retry-After is honoured for HTTP 429 only, as documented in docs/configuration.rst; a Retry-After on 5xx/403 is ignored by the code (retry_after_on_5xx_ignored_witness) and not judged",
+    "Retry-After forms: delay-seconds (int(float()): fractions truncated = open finding F5), HTTP-date (F1 fixed in dee5a41, rounded up in 19d7f3b: judged strictly, never before the date), garbage and float overflow (F2 fixed in ae1ab5d) are ignored like an absent header except that the body's retryAfterSeconds is then not consulted; a header name spelled other than 'Retry-After' is not found (open finding F4; the fake response's headers are a CIMultiDictProxy like aiohttp's)",
+    "with settings.networking.enforce_retry_after a 429 carrying a usable Retry-After waits for the server's value even if shorter than the backoff (documented override; exactly the guard of gap_ge_backoff)",
+    "error_backoffs / error_delays are re-iterable (list, tuple, object with __iter__); a one-shot generator object is consumed across requests / shared by all objects' throttlers and is outside the model (the property quantifies over re-iterable configurations)",
+    "settings.queueing.error_delays is an Iterable as annotated; a scalar makes iter() raise TypeError out of throttled (scalar_delays_escape_witness; that escape stops the operator via queueing.watcher; modelled, not judged: misconfiguration)",
+    "credentials have no expiration (Vault._expire forgets credentials without remembering them: outside the model); every populate brings newly constructed info objects (equal values allowed); login handlers do not raise (a failing login handler kills the authenticator task: see C20)",
+    "the invalid-credential history is per vault key, holds 3 items and compares value AND priority: the unbounded clause is false of the code = open finding F3 (the oracle is unbounded; F3's signature covers exactly the re-servings outside that window)",
     "wake-ups exactly at a sleep's deadline are not generated (the order of two timers due at the same instant is the loop's choice)",
-    "'does not stop the operator or delay other objects' is checked at the level of throttlers of distinct objects running concurrently (per-object Throttler in ResourceMemory), not on a whole operator",
+    "'does not stop the operator' is checked at throttled() only (nothing escapes for iterable configurations); 'does not delay other objects' is checked on throttlers of distinct objects running concurrently on one loop (per-object Throttler in ResourceMemory), with settings.queueing.worker_limit = None (the default): with a limit, a worker sleeping in throttled() keeps its slot and other objects wait, by design of that setting; no whole-operator run",
+    "attempts_bound bounds one pass of api.request; a 401/APISessionClosed re-enters through auth.authenticated with a full budget (api.py comment) - the composition is exercised by the vault traces only",
 ]
 
 TICK = 2.0 ** -10
@@ -231,8 +245,9 @@ def _imports():
 
 class FakeResp:
     def __init__(self, status: int, headers: dict | None = None, payload: Any = None, text: str | None = None):
+        from multidict import CIMultiDict, CIMultiDictProxy
         self.status = status
-        self.headers = headers or {}
+        self.headers = CIMultiDictProxy(CIMultiDict(headers or {}))     # what aiohttp's response.headers is
         self._payload = payload
         self._text = text
         self.closed = False
@@ -353,7 +368,7 @@ def make_exc(name: str) -> BaseException:
 def make_resp(a: dict) -> FakeResp:
     headers = {}
     if a.get("hdr") is not None:
-        headers["Retry-After"] = a["hdr"]
+        headers[a.get("hdr_name", "Retry-After")] = a["hdr"]     # header names are case-insensitive (RFC 7230 3.2)
     pk = a.get("payload", "empty")
     det = a.get("det")
     body: Any = None
@@ -402,7 +417,7 @@ class ScriptSession:
             import email.utils
             when = (now // 1024 + a["hdr_date"]) * 1024
             a = dict(a, hdr=email.utils.format_datetime(simloop.EPOCH + _dt.timedelta(seconds=when // 1024), usegmt=True))
-        self.facts.append(["http", now, a.get("hdr")])
+        self.facts.append(["http", now, a.get("hdr"), a.get("hdr_name", "Retry-After")])
         return make_resp(a)
 
     async def close(self) -> None:
@@ -483,8 +498,15 @@ def gen_attempt(rng: random.Random, backoff_hint: int | None) -> dict:
             a["det"] = val
         if how == "hdr-frac":
             a["hdr"] = f"{val}.5"
+        if how in ("hdr", "hdr-frac") and rng.random() < 0.12:       # finding F4: another spelling of the name
+            a["hdr_name"] = rng.choice(["retry-after", "RETRY-AFTER", "Retry-after"])
+            if how == "hdr" and rng.random() < 0.4:
+                a["det"] = rng.choice(RA_POOL)
+                a["payload"] = "status"
         if how in ("det", "both"):
             a["det"] = val if how == "det" else rng.choice(RA_POOL)
+            if how == "det" and rng.random() < 0.08:
+                a["det"] = rng.choice([0.5, 1.5, 2.25])              # non-integral retryAfterSeconds: int() truncates
         if how == "none" and rng.random() < 0.3:
             a["empty_details"] = True
         return a
@@ -571,10 +593,16 @@ def classify_hdr(hdr: Any, now: int) -> list | None:
 def attempt_hdr(a: dict, fact: Any) -> list | None:
     """the classified header of an attempt: from what the fake session really sent, if it got that far"""
     if isinstance(fact, list) and fact and fact[0] == "http":
-        return classify_hdr(fact[2], fact[1])
-    if a.get("hdr_date") is not None:
-        return ["date", a["hdr_date"] * 1024]      # never reached: the value is irrelevant
-    return classify_hdr(a.get("hdr"), 0)
+        h = classify_hdr(fact[2], fact[1])
+    elif a.get("hdr_date") is not None:
+        h = ["date", a["hdr_date"] * 1024]      # never reached: the value is irrelevant
+    else:
+        h = classify_hdr(a.get("hdr"), 0)
+    if h is not None and a.get("hdr_name", "Retry-After") != "Retry-After":
+        if h[0] != "secs":
+            raise ValueError("generator: only delay-seconds are sent under another spelling of the header name")
+        h = ["other-case", h[1]]
+    return h
 
 
 def request_to_lean(case: dict, obs: dict) -> list:
@@ -583,7 +611,7 @@ def request_to_lean(case: dict, obs: dict) -> list:
         if a["kind"] == "exc":
             f = fact if fact is not None else _exc_facts(a["exc"])
         else:
-            d = None if a.get("det") is None else a["det"] * 1024
+            d = None if a.get("det") is None else tk(a["det"])
             f = ["http", a["status"], attempt_hdr(a, fact), a.get("payload", "empty"), d]
         script.append({"lat": a["lat"], "f": f})
     return ["C12.request", {"backoffs": seq_to_lean(case["backoffs"]), "enforce": case["enforce"]}, script, obs["t0"]]
@@ -673,21 +701,31 @@ def oracle_request(case: dict, obs: dict) -> list[tuple[str, dict]]:
         gap = times[i + 1] - (times[i] + a["lat"])
         b = budget[i] if i < len(budget) else None
         ra = None
+        shape = None
         if a["kind"] == "http" and a["status"] == 429:
             h = attempt_hdr(a, obs["facts"][i] if i < len(obs["facts"]) else None)
-            if h is not None and h[0] == "secs":
-                ra = int(h[1] / 1024) * 1024         # delay-seconds are integral (RFC 7231 §7.1.3)
+            if h is not None and h[0] in ("secs", "other-case"):
+                ra = h[1]                            # what the server sent, whatever the spelling of the name
+                shape = "other-case" if h[0] == "other-case" else ("fraction" if h[1] % 1024 else None)
             elif h is not None and h[0] == "date":
                 ra = max(0, h[1])                    # never before the date itself (no tolerance)
             elif h is None and a.get("det") and a.get("payload") == "status":
-                ra = a["det"] * 1024
+                ra = tk(a["det"])
+                shape = "fraction" if ra % 1024 else None
         if b is None:
             out.append(("a retry happened beyond the configured backoffs", {"site": "api.request", "shape": "retry-without-backoff"}))
             continue
         if gap < max(0, b) and not (case["enforce"] and ra is not None):
             out.append((f"waited {gap} ticks, configured backoff {b}", {"site": "api.request", "shape": "gap<backoff"}))
         if ra is not None and gap < ra:
-            out.append((f"waited {gap} ticks after a 429 asking for {ra}", {"site": "api.request", "shape": "gap<retry-after"}))
+            if shape == "other-case":
+                out.append((f"waited {gap} ticks after a 429 asking for {ra} in a header spelled {a.get('hdr_name')!r}",
+                            {"site": "errors.check_response/api.request", "shape": "Retry-After under another capitalisation is ignored (case-sensitive dict lookup)"}))
+            elif shape == "fraction" and gap >= (ra // 1024) * 1024:
+                out.append((f"waited {gap} ticks after a 429 asking for {ra} (fractional seconds truncated)",
+                            {"site": "api.request/_parse_retry_after", "shape": "fractional Retry-After seconds truncated down by int()"}))
+            else:
+                out.append((f"waited {gap} ticks after a 429 asking for {ra}", {"site": "api.request", "shape": "gap<retry-after"}))
     return out
 
 
@@ -1043,7 +1081,8 @@ def gen_vault(rng: random.Random) -> dict:
         per_key = []
         for _k in range(nkeys):
             r = rng.random()
-            what = "fresh" if r < 0.62 else "same" if r < 0.8 else "old" if r < 0.9 else "none"
+            what = "fresh" if r < 0.58 else "same" if r < 0.74 else "old" if r < 0.82 else "none" if r < 0.9 \
+                else "same-prio" if r < 0.95 else "other-key"
             per_key.append({"what": what, "life": life(), "delay": rng.choice([0, 16, 64, 512, 1024])})
         logins.append(per_key)
     reqs = []
@@ -1082,11 +1121,11 @@ async def _one_vault(env: dict, case: dict) -> dict:
     revoked_hist: dict[int, list[int]] = {i: [] for i in range(nkeys)}     # tokens handed out per key, in order
     answers: dict[str, list] = {}
 
-    def mk(ki: int, token: int, life: int | None) -> Any:
+    def mk(ki: int, token: int, life: int | None, prio: int | None = None) -> Any:
         if life is not None and token not in world.invalid_from:
             world.invalid_from[token] = loop.time() + sec(life)
         revoked_hist[ki].append(token)
-        return credentials.AiohttpSession(server="http://fake", priority=case["keys"][ki]["prio"],
+        return credentials.AiohttpSession(server="http://fake", priority=case["keys"][ki]["prio"] if prio is None else prio,
                                           aiohttp_session=TokenSession(world, keyname[ki], token, case["close_lat"], answers))
 
     def fresh() -> int:
@@ -1228,6 +1267,12 @@ async def _one_vault(env: dict, case: dict) -> dict:
                 return mk(ki, hist[-1], None)
             if spec["what"] == "old" and hist:
                 return mk(ki, hist[0], None)
+            if spec["what"] == "same-prio" and hist:      # the same credential value with another priority
+                return mk(ki, hist[-1], None, prio=case["keys"][ki]["prio"] + 1)
+            if spec["what"] == "other-key":               # the credential another login key has handed out
+                others = [t for kj, h in revoked_hist.items() if kj != ki for t in h]
+                if others:
+                    return mk(ki, others[-1], None)
             return mk(ki, fresh(), spec["life"])
         return login
 
@@ -1351,7 +1396,7 @@ def oracle_vault(case: dict, obs: dict) -> list[tuple[str, dict]]:
     #    for an already replaced credential must not remove or block anything.
     prev = None
     holding: dict[int, tuple[int, int]] = {}        # requester → (key, serial) of the yielded item
-    removed_tokens: dict[int, list[int]] = collections.defaultdict(list)   # key → tokens removed by invalidation, in order
+    removed_tokens: dict[int, list[tuple[int, int]]] = collections.defaultdict(list)   # key → (token, priority) removed by invalidation, in order
     episodes = 0
     populated_since_flip = True
     for l in labels:
@@ -1367,9 +1412,21 @@ def oracle_vault(case: dict, obs: dict) -> list[tuple[str, dict]]:
             else:
                 holding[r] = (ki, cur[ki][1])
                 token = cur[ki][2]
-                if token in removed_tokens[ki][-3:]:
-                    out.append((f"token {token} was served again under key {ki} after it had been invalidated",
-                                {"site": "Vault", "shape": "invalid-reused"}))
+                prio = cur[ki][3]
+                if any(token == t for lst in removed_tokens.values() for t, _ in lst):
+                    # the property has no bound: an invalidated credential value must never be served again.
+                    # Inside what the code remembers (last 3 of the SAME key, SAME priority) it is a plain
+                    # violation; outside it is the recorded gap of the mechanism (finding F3).
+                    if (token, prio) in removed_tokens[ki][-3:]:
+                        out.append((f"token {token} was served again under key {ki} after it had been invalidated",
+                                    {"site": "Vault", "shape": "invalid-reused"}))
+                    else:
+                        how = "same key, more than 3 invalidations ago" if any(token == t for t, _ in removed_tokens[ki]) \
+                            and (token, prio) in removed_tokens[ki] else \
+                            "same key, other priority" if any(token == t for t, _ in removed_tokens[ki]) else "other key"
+                        out.append((f"token {token} was served again under key {ki} after it had been invalidated ({how})",
+                                    {"site": "Vault.invalidate/_update_converted",
+                                     "shape": "invalidated credential re-served: beyond 3 invalidations / under another key / with another priority"}))
                 if any(c[3] > cur[ki][3] for c in snap["cur"]):
                     out.append(("a lower-priority credential was selected", {"site": "Vault.select", "shape": "priority"}))
         if kind == "inval" and prev is not None:
@@ -1382,7 +1439,7 @@ def oracle_vault(case: dict, obs: dict) -> list[tuple[str, dict]]:
                 if held is None or (k, before[k][1]) != held:
                     out.append(("a 401 on an already replaced credential removed a different (fresh) credential",
                                 {"site": "Vault.invalidate", "shape": "stale-401-removed-fresh"}))
-                removed_tokens[k].append(before[k][2])
+                removed_tokens[k].append((before[k][2], before[k][3]))
             if prev["ready"] and not snap["ready"] and not gone and prev["cur"]:
                 out.append(("a 401 on an already replaced credential triggered a re-authentication",
                             {"site": "Vault.invalidate", "shape": "stale-401-reauth"}))
@@ -1477,11 +1534,25 @@ def judge(case: dict, obs: dict) -> list[tuple[str, dict]]:
     return oracle_vault(case, obs)
 
 
+def product_events(case: dict, obs: dict) -> list[tuple[int, int, dict, dict]]:
+    """(start, object, cycle input, observed output) of every cycle of every object, in clock order"""
+    evs = []
+    for k, o in enumerate(obs["objects"]):
+        for c, r in zip(throttle_to_lean(case, o)[3], o["outs"]):
+            evs.append((r["body_start"] - r["sleep1"], k, c, r))
+    evs.sort(key=lambda e: (e[0], e[1]))
+    return evs
+
+
 def lean_requests(case: dict, obs: dict) -> list[list]:
     if case["part"] == "request":
         return [request_to_lean(case, obs)]
     if case["part"] == "throttle":
-        return [throttle_to_lean(case, o) for o in obs["objects"]]
+        reqs = [throttle_to_lean(case, o) for o in obs["objects"]]
+        if len(obs["objects"]) > 1:      # the product system: all objects on the one observed clock
+            reqs.append(["C12.product", seq_to_lean(case["delays"]),
+                         [{"obj": k, "at": t, "in": c} for t, k, c, _ in product_events(case, obs)]])
+        return reqs
     return [vault_to_lean(case, obs)]
 
 
@@ -1501,6 +1572,14 @@ def tie_compare(case: dict, obs: dict, answers: list[Any]) -> list[tuple[str, An
         for o, m in zip(obs["objects"], models):
             a, b = throttle_canon(case, o["outs"], m if isinstance(m, list) else [m])
             res.append(("throttled cycle outputs", a, b))
+        if len(obs["objects"]) > 1:
+            m = models[len(obs["objects"])]
+            evs = product_events(case, obs)
+            if isinstance(m, list) and all(isinstance(x, list) and len(x) == 2 for x in m):
+                a, b = throttle_canon(case, [e[3] for e in evs], [x[1] for x in m])
+                res.append(("product run of all objects on one clock", [[e[1] for e in evs], a], [[x[0] for x in m], b]))
+            else:
+                res.append(("product run of all objects on one clock", "ok", m))
     else:
         m = models[0]
         a, b = vault_compare(case, obs, m)
